@@ -16,6 +16,8 @@ class FloatPrecision:
 
     @property
     def is_inf(self) -> bool:
+        if self.value == 0:
+            return False
         return self.exponent > self.max_exp
 
     @property
